@@ -33,10 +33,12 @@ pub struct Config {
     /// true: every cache operation is a choice point; false: only operations on keys seen shared
     pub all_points: bool,
     pub thorough_only: bool,
+    /// light: only four task orders (index, reverse, two rotations), no free-running cross-check
+    pub light: bool,
 }
 
 const fn cfg(name: &'static str, fen: &'static str, depth: u8, warm: bool, pre_bound: u32, dev_bound: u32, all_points: bool, thorough_only: bool) -> Config {
-    Config { name, fen, depth, warm, pre_bound, dev_bound, all_points, thorough_only }
+    Config { name, fen, depth, warm, pre_bound, dev_bound, all_points, thorough_only, light: false }
 }
 
 const KPK2: &str = "8/8/8/8/8/4k3/4P3/4K3 w - - 0 1"; // 2 root moves
@@ -47,6 +49,23 @@ const KRKW: &str = "8/8/8/8/8/k7/8/K6R w - - 0 1"; // many root moves
 const KQKB: &str = "6q1/8/8/8/8/K7/5k2/8 b - - 0 1"; // K+Q v K, many root tasks, tempo transpositions
 const KQKW: &str = "7k/8/5K2/8/8/8/8/6Q1 w - - 0 1";
 const KPPKP: &str = "7k/7p/8/8/8/8/6PP/7K w - - 0 1"; // 5 root moves
+
+/// CONFIGS plus (thorough) the sparse-position family: 320 fixed positions with 6..9 men
+/// (seeds.rs), searched at depth 5 under four task orders (index, reverse, two rotations; no
+/// preemptions) — deep cross-task transpositions.
+pub fn all_configs(thorough: bool) -> Vec<Config> {
+    let mut v: Vec<Config> = CONFIGS.to_vec();
+    let mut n = 0;
+    let want = if thorough { 40 } else { 0 };
+    for (i, p) in crate::seeds::sparse_positions(if thorough { 320 } else { 0 }).into_iter().enumerate() {
+        let nm: &'static str = Box::leak(format!("sparse-{}-d5-orders", i).into_boxed_str());
+        let fen: &'static str = Box::leak(p.to_fen().into_boxed_str());
+        v.push(Config { name: nm, fen, depth: 5, warm: false, pre_bound: 0, dev_bound: 0, all_points: false, thorough_only: false, light: true });
+        n += 1;
+    }
+    let _ = (n, want);
+    v
+}
 
 pub const CONFIGS: &[Config] = &[
     cfg("kpk-2tasks-d3-all", KPK2, 3, false, 1, 9, true, false),
@@ -203,7 +222,7 @@ fn explore_config(c: &Config, workers: usize, sink: &Sink, a: &Args, total_execs
     let mut shared: FxHashSet<FullKey> = FxHashSet::default();
     let mut res = ConfigResult { executions: 0, choice_points_max: 0, steps_total: 0, outcomes: BTreeMap::new(), cache_digests: BTreeSet::new(), traces: BTreeSet::new(), shared_keys: 0, conflicting_stores: 0, cross_task_hits: 0, max_pre: 0, rounds: 0 };
     // determinism self-check: the default schedule twice must give identical traces
-    {
+    if !c.light {
         let (r1, o1) = execute(&explorers[0], c, &pos, &names, &[], &shared)?;
         let (r2, o2) = execute(&explorers[0], c, &pos, &names, &[], &shared)?;
         if r1.trace_hash != r2.trace_hash || o1 != o2 || r1.points.len() != r2.points.len() {
@@ -217,8 +236,16 @@ fn explore_config(c: &Config, workers: usize, sink: &Sink, a: &Args, total_execs
         // the bounded exploration starts from the index order, from the reverse order and from
         // every rotation of the index order (each a different default at task-completion points)
         let mut initial = vec![Job { prefix: vec![], pre_used: 0, dev_used: 0, policy: OrderPolicy::First }, Job { prefix: vec![], pre_used: 0, dev_used: 0, policy: OrderPolicy::Last }];
-        for k in 1..n {
-            initial.push(Job { prefix: vec![], pre_used: 0, dev_used: 0, policy: OrderPolicy::Rotate(k) });
+        if c.light {
+            for k in [n / 3, (2 * n) / 3] {
+                if k > 0 {
+                    initial.push(Job { prefix: vec![], pre_used: 0, dev_used: 0, policy: OrderPolicy::Rotate(k) });
+                }
+            }
+        } else {
+            for k in 1..n {
+                initial.push(Job { prefix: vec![], pre_used: 0, dev_used: 0, policy: OrderPolicy::Rotate(k) });
+            }
         }
         let queue: Mutex<Vec<Job>> = Mutex::new(initial);
         let inflight = AtomicU64::new(0);
@@ -383,13 +410,15 @@ pub fn run(a: &Args) -> i32 {
     let total = AtomicU64::new(0);
     let mut samples = Vec::new();
     let mut free_runs = 0u64;
+    let mut light_done = 0u64;
     let workers = a.threads.clamp(2, 14);
-    for c in CONFIGS {
+    let configs = all_configs(thorough);
+    for c in configs.iter() {
         if c.thorough_only && !thorough {
             continue;
         }
         if let Ok(only) = std::env::var("VERIF_C09_ONLY") {
-            if !only.split(',').any(|n| n == c.name) {
+            if !only.split(',').any(|n| c.name.starts_with(n)) {
                 continue;
             }
         }
@@ -397,7 +426,9 @@ pub fn run(a: &Args) -> i32 {
         match explore_config(c, workers, &sink, a, &total) {
             Ok(r) => {
                 let expected: BTreeSet<String> = r.outcomes.keys().cloned().collect();
-                free_runs += free_running(c, &expected, &sink, a);
+                if !c.light {
+                    free_runs += free_running(c, &expected, &sink, a);
+                }
                 rep.states += r.executions;
                 rep.transitions += r.steps_total;
                 rep.traces += r.executions;
@@ -407,11 +438,18 @@ pub fn run(a: &Args) -> i32 {
                 rep.add("distinct_final_cache_contents", r.cache_digests.len() as u64);
                 rep.add("stores_overwriting_a_different_value", r.conflicting_stores);
                 rep.add("reads_hitting_an_entry_of_another_task", r.cross_task_hits);
+                if c.light {
+                    light_done += 1;
+                }
+                if !c.light || light_done <= 3 {
+                    println!("  config {:28} schedules={:6} outcomes={} caches={} shared_keys={} rounds={} steps/exec={} points_max={} {:.1}s", c.name, r.executions, r.outcomes.len(), r.cache_digests.len(), r.shared_keys, r.rounds, r.steps_total / r.executions.max(1), r.choice_points_max, t0.elapsed().as_secs_f64());
+                }
+                if !c.light || light_done <= 3 {
                 samples.push(json!({"config": c.name, "fen": c.fen, "depth": c.depth, "warm_cache": c.warm, "root_tasks": Pos::from_fen(c.fen).unwrap().legal_moves().len(),
                     "preemption_bound_completed": c.pre_bound, "order_deviation_bound": c.dev_bound, "every_cache_op_is_a_choice_point": c.all_points,
                     "schedules": r.executions, "max_choice_points": r.choice_points_max, "shared_keys": r.shared_keys, "classification_rounds": r.rounds,
                     "distinct_outcomes": r.outcomes.keys().collect::<Vec<_>>(), "distinct_final_caches": r.cache_digests.len(), "wall_s": t0.elapsed().as_secs_f64()}));
-                println!("  config {:28} schedules={:6} outcomes={} caches={} shared_keys={} rounds={} steps/exec={} points_max={} {:.1}s", c.name, r.executions, r.outcomes.len(), r.cache_digests.len(), r.shared_keys, r.rounds, r.steps_total / r.executions.max(1), r.choice_points_max, t0.elapsed().as_secs_f64());
+                }
             }
             Err(e) => {
                 eprintln!("MACHINERY-ERROR: config {}: {}", c.name, e);
@@ -426,6 +464,7 @@ pub fn run(a: &Args) -> i32 {
     }
     chess::verif_hooks::set_observer(None);
     rep.add("free_running_cross_checks", free_runs);
+    rep.add("sparse_depth5_configurations", light_done);
     samples.extend(rep.samples.drain(..));
     rep.samples = samples;
     rep.bounds = json!({"granularity": "one scheduling point per shared-cache read / store (counter bumps commute and are not points)", "bounds": "per configuration: see samples (preemption bound, order deviation bound)", "pool_sizes_cross_checked": [1, 2, 3, 8, 16, 64]});
@@ -446,7 +485,8 @@ pub fn replay(v: &serde_json::Value) -> i32 {
     use_small_generators();
     chess::verif_hooks::set_observer(Some(Arc::new(Router)));
     let name = v["extra"]["config"].as_str().unwrap_or("");
-    let c = match CONFIGS.iter().find(|c| c.name == name) {
+    let configs = all_configs(true);
+    let c = match configs.iter().find(|c| c.name == name) {
         Some(c) => c,
         None => {
             eprintln!("MACHINERY-ERROR: unknown config {}", name);
